@@ -53,12 +53,12 @@ func init() {
 	})
 }
 
-var c16Dict = []string{`"`, "`", `\`, ",", ":", "'", "\x00", "\x01", "\x7f", "\xff", "\xc3\x28", "\xed\xa0\x80", " ", "\t", "\n", "=", "-", "--", "+", "0x", "0b", "0o", "_", "e", "E", "i", "(", ")", "[", "]", "{", "}", "null", "true", "nan", "inf", "1e999", "-0", ".", "..", "é", "日本", "\u2028", "//", "/*", "#", "<<", "&", "*", "!", "|", ">", "%", "@"}
+var c16Dict = []string{`"`, "`", `\`, ",", ":", "'", "\x00", "\x01", "\x7f", "\xff", "\xc3\x28", "\xed\xa0\x80", " ", "\t", "\n", "=", "-", "--", "+", "0x", "0b", "0o", "_", "e", "E", "i", "(", ")", "[", "]", "{", "}", "null", "true", "nan", "inf", "1e999", "-0", ".", "..", "é", "日本", "\u2028", "İ", "\u212a", "\u212b", "\u2126", "ẞ", "Ǆ", "ǅ", "ß", "ﬁ", "//", "/*", "#", "<<", "&", "*", "!", "|", ">", "%", "@"}
 
 var c16Valid = []string{
 	"42", "-7", "0x1F", "0b101", "1_000", "3.25", "1e10", "(1+2i)", "true", "false", "1h2m3s", "2020-01-02T03:04:05Z", "10.0.0.1", "3:4",
 	`"a","b"`, "a,b,c", `"k":"v","k2":"v2"`, "k:v", `"x\ty"`, "1,2,3", "-128,127", "0,65535",
-	"JSONFilePath", "userID", "lower_snake_case", "UPPER_SNAKE_CASE", "kebab-case-string", "Case_Preserving_Snake", "lowerCamelCase", "HTTPSPort2",
+	"JSONFilePath", "userID", "tKK", "İİİA", "ÅngströmUnit", "ΩmegaValue", "straßeName", "KelvinKScale", "lower_snake_case", "UPPER_SNAKE_CASE", "kebab-case-string", "Case_Preserving_Snake", "lowerCamelCase", "HTTPSPort2",
 	`{"a":1,"b":{"c":[1,2,3],"d":"x"}}`,
 	`{"port":1,"level":2,"tags":["a"],"nested":{"depth":3,"names":["n"]},"elems":[{"X":1,"Y":"y"}],"hidden":[{"X":2,"Y":"z"}],"pair":[{"X":1},{"Y":"q"}],"labels":{"k":"v"},"wait":"3s","when":"2020-01-02T03:04:05Z"}`,
 	"port: 1\ntags: [a, b]\nnested:\n  depth: 2\nelems:\n  - x: 1\n    y: w\nhidden:\n  - x: 2\nlabels:\n  k: v\nwait: 3s\n",
